@@ -4,22 +4,22 @@
    property is searched, not proved (harness/c07.go: exhaustive keyword x value-shape x context table,
    grammar-directed programs over 1-4 files, token mutations, every compile in a killable process under
    the bound 50 ms + 2 ms/byte).  Proved below, for all inputs of the modelled parts:
-     - the configuration path (V.C07.Config) never dereferences a nil pointer   [repaired code]
-       and does so on stated inputs                                            [pinned code: refuted]
+     - the configuration path (V.C07.Config) never dereferences a nil pointer   [the code of /repo]
      - import recursion terminates, for every file set of any size (V.C14)
-     - class application terminates                                            [repaired code]
-       and does not on a class that names itself                               [pinned code: refuted]  *)
+     - class application terminates                                            [the code of /repo]
+   Historical (the code before commit 9d408296b, kept as refutation lemmas): the configuration path
+   crashed at three sites on stated inputs; class application did not terminate on a class naming itself. *)
 From Coq Require Import List NArith Bool.
 Require Import V.C07.Config V.C07.Proofs V.C07.Classes.
 Require Import V.C14.Dfs V.C14.Import V.C14.Proofs.
 
 (* ------------------------------------------------------------------ configuration path *)
 
-(* full statement, holds for the repaired code (coq/C07/fix.patch): every IR value *)
+(* full statement, for the code of /repo (since 9d408296b): every IR value *)
 Theorem C07_config_total : forall ir s, compile_config ir <> Crash s.
 Proof. exact config_total_fixed. Qed.
 
-(* the same statement for the pinned code is refuted, at three dereference sites *)
+(* HISTORICAL: the same statement for the code before 9d408296b is refuted, at three dereference sites *)
 Theorem C07_config_total_refuted : exists ir s, compile_config_pinned ir = Crash s.
 Proof. exact config_total_refuted_pinned. Qed.
 
@@ -33,7 +33,7 @@ Proof. exact refuted_theme_errorf. Qed.
 Theorem C07_config_refuted_config_primary : compile_config_pinned witness_config_primary = Crash SiteConfigPrimary.
 Proof. exact refuted_config_primary. Qed.
 
-(* the pinned code outside the two input signatures (decidable, attached to inputs by the harness) *)
+(* HISTORICAL: the earlier code outside the two input signatures (decidable) *)
 Theorem C07_config_total_pinned_guarded :
   forall ir, pinned_safe ir = true -> forall s, compile_config_pinned ir <> Crash s.
 Proof. exact config_total_pinned_guarded. Qed.
@@ -62,12 +62,12 @@ Proof. exact depth_bounded. Qed.
 
 (* ------------------------------------------------------------------ termination: class application *)
 
-(* repaired code: for every class table and every list of applied classes *)
+(* the code of /repo: for every class table and every list of applied classes *)
 Theorem C07_class_application_terminates :
-  forall (cs : classes) (ns : list str), apply_classes true (S (length cs)) cs ns <> None.
+  forall (cs : classes) (ns : list str), apply_classes_now (S (length cs)) cs ns <> None.
 Proof. exact class_apply_terminates_fixed. Qed.
 
-(* pinned code: classes: {c: {class: c}}; x.class: c *)
+(* HISTORICAL (before 9d408296b): classes: {c: {class: c}}; x.class: c *)
 Theorem C07_class_application_refuted :
   exists cs ns, forall fuel, apply_classes false fuel cs ns = None.
 Proof. exact class_apply_refuted_pinned. Qed.
